@@ -46,11 +46,12 @@ def main():
         return 1
     dst = ROOT / "seeded" / sid
     dst.mkdir(parents=True, exist_ok=True)
-    shutil.copy(src / "patch.diff", dst / "patch.diff")
-    shutil.copy(src / "demo.py", dst / "demo.py")
-    for extra in src.iterdir():
-        if extra.suffix == ".py" and extra.name != "demo.py":
-            shutil.copy(extra, dst / extra.name)
+    if src.resolve() != dst.resolve():
+        shutil.copy(src / "patch.diff", dst / "patch.diff")
+        shutil.copy(src / "demo.py", dst / "demo.py")
+        for extra in src.iterdir():
+            if extra.suffix == ".py" and extra.name != "demo.py":
+                shutil.copy(extra, dst / extra.name)
     meta = {}
     if (src / "meta.json").exists():
         try:
@@ -58,7 +59,8 @@ def main():
         except Exception:  # noqa: BLE001
             meta = {"raw": (src / "meta.json").read_text()}
     meta["seeded_id"] = sid
-    meta["agent_ran"] = meta.pop("ran", [])
+    if "ran" in meta:
+        meta["agent_ran"] = meta.pop("ran")
     meta["confirmed_by_coordinator"] = ran
     meta["repo_head"] = sh(["git", "-C", "/repo", "rev-parse", "--short", "HEAD"])[1].strip()
     (dst / "meta.json").write_text(json.dumps(meta, indent=1, ensure_ascii=False))
